@@ -136,6 +136,19 @@ fn nested<T: Encode + Decode + PartialEq + Debug + Clone>(kind: &str, a: &T, b: 
     rt(&format!("RangeTo<{kind}>"), &(..a.clone()));
     rt(&format!("RangeToInclusive<{kind}>"), &(..=b.clone()));
     rt(&format!("VecDeque<{kind}>"), &VecDeque::from(vec![a.clone(), b.clone()]));
+    {
+        // a deque whose ring buffer has WRAPPED (two non-empty physical slices): the wire form depends on the element
+        // sequence only
+        let mut d: VecDeque<T> = VecDeque::from(vec![a.clone(), b.clone(), a.clone()]);
+        d.push_front(b.clone());
+        d.push_front(a.clone());
+        if d.as_slices().1.is_empty() { d.rotate_left(1); d.push_front(b.clone()); }
+        rt(&format!("VecDeque<{kind}> with a wrapped ring buffer (as_slices = {} + {})", d.as_slices().0.len(), d.as_slices().1.len()), &d);
+        let mut e: VecDeque<T> = VecDeque::with_capacity(4);
+        for i in 0..6 { if i % 2 == 0 { e.push_back(a.clone()); } else { e.push_back(b.clone()); } if i >= 2 { let f = e.pop_front().unwrap(); e.push_back(f); } }
+        rt(&format!("VecDeque<{kind}> after pop_front/push_back cycles (as_slices = {} + {})", e.as_slices().0.len(), e.as_slices().1.len()), &e);
+        rt(&format!("(VecDeque<{kind}>, u8) back to back"), &(d, 7u8));
+    }
     rt(&format!("LinkedList<{kind}>"), &LinkedList::from_iter(vec![a.clone(), b.clone()]));
     rt(&format!("Wrapping<{kind}>"), &std::num::Wrapping(a.clone()));
     rt(&format!("Reverse<{kind}>"), &std::cmp::Reverse(b.clone()));
